@@ -14,6 +14,11 @@ Cursor semantics follow liblmdb:
   iternext()    -> keys from the current position to the end (from the first key when
                    unpositioned)
 
+Cursors stay valid across mutations made through the same transaction, as LMDB's cursor tracking
+guarantees: a cursor keeps pointing at *its key* when other keys are inserted/deleted before it; when
+the key under a cursor is deleted the cursor refers to the successor position, so that prev() yields
+the predecessor of the deleted key (mdb_cursor_prev clears C_DEL and steps back from that index).
+
 Fault injection (C07/C10): Environment.fail_at = k makes the k-th mutation (put/delete,
 counted from 1 over the life of the environment) raise lmdb.Error.
 All loops are written so that they stay symbolic under CrossHair (no hashing of keys).
@@ -28,6 +33,7 @@ class Cursor:
     def __init__(self, txn):
         self.txn = txn
         self.pos = None  # None = unpositioned
+        txn.cursors.append(self)
 
     def set_range(self, k):
         keys = self.txn.keys
@@ -43,6 +49,8 @@ class Cursor:
 
     def prev(self):
         keys = self.txn.keys
+        if self.pos is not None and self.pos > len(keys):
+            self.pos = len(keys)
         if self.pos is None:
             if not keys:
                 return False
@@ -55,7 +63,7 @@ class Cursor:
         return True
 
     def key(self):
-        if self.pos is None:
+        if self.pos is None or self.pos >= len(self.txn.keys):
             return b""
         return self.txn.keys[self.pos]
 
@@ -74,13 +82,14 @@ class Cursor:
             i += 1
 
     def close(self):
-        pass
+        if self in self.txn.cursors:
+            self.txn.cursors.remove(self)
 
     def __enter__(self):
         return self
 
     def __exit__(self, *a):
-        pass
+        self.close()
 
 
 class Txn:
@@ -89,6 +98,7 @@ class Txn:
         self.write = write
         self.keys = list(env.keys)
         self.vals = list(env.vals)
+        self.cursors = []
 
     def _find(self, k):
         i = 0
@@ -124,6 +134,9 @@ class Txn:
             j += 1
         self.keys.insert(j, k)
         self.vals.insert(j, v)
+        for c in self.cursors:
+            if c.pos is not None and c.pos >= j:
+                c.pos += 1
         return True
 
     def delete(self, k, value=b""):
@@ -133,6 +146,9 @@ class Txn:
             return False
         del self.keys[i]
         del self.vals[i]
+        for c in self.cursors:
+            if c.pos is not None and c.pos > i:
+                c.pos -= 1
         return True
 
     def commit(self):
